@@ -428,15 +428,53 @@ def selftest():
         pred = {}
         for m, v, r in leaves:
             pred[(m, v)] = r
+        groups = {}
+        for (m, v), r in pred.items():
+            groups.setdefault(m, {})[v] = r
         for w in range(1 << 16):
             try:
                 c = t16.decode_instruction(w)
                 got = getattr(c, "__name__", repr(c))
             except Exception as e:  # noqa
                 got = "EXC:" + type(e).__name__
-            hit = [r for (m, v), r in pred.items() if (w & m) == v]
+            hit = [g[w & m] for m, g in groups.items() if (w & m) in g]
             if len(hit) != 1 or hit[0] != got:
                 ok = False
                 break
     print("lazyword selftest: thumb16 leaves=%d tiling=%s brute-force-agreement=%s" % (len(leaves), t.words == 1 << 16, ok))
+    return ok and selftest_subcubes()
+
+
+def selftest_subcubes():
+    """Part (iii): 2^16-word sub-cubes of the ARM and Thumb-32 spaces: the lazy partition of decode + from_bitarray must
+    predict the outcome label of every concrete word of the cube (brute force), and tile it."""
+    import io
+    import contextlib
+    from . import sweep
+    ok = True
+    report = []
+    with contextlib.redirect_stdout(io.StringIO()):
+        env = sweep.Env("mpu-off", {"arch_version": 7})
+        for thumb, top in ((0, 0xE591), (0, 0xE7B1), (0, 0xE8BD), (0, 0xE12F), (1, 0xF85D), (1, 0xEB01), (1, 0xF3EF), (1, 0xE8BD)):
+            f = sweep.decode_fn(env.cpu, thumb, 32, 0)
+            leaves = []
+
+            def lab(w):
+                try:
+                    return f(w)
+                except Exception as e:  # noqa
+                    return "EXC:" + type(e).__name__
+            t = explore(f, 32, 0xFFFF0000, top << 16, lambda m, v, r, e: leaves.append((m, v, r if e is None else "EXC:" + type(e).__name__)))
+            good = t.words == 1 << 16
+            groups = {}
+            for m, v, r in leaves:
+                groups.setdefault(m, {})[v] = r
+            for w in range(top << 16, (top << 16) + (1 << 16)):
+                hit = [g[w & m] for m, g in groups.items() if (w & m) in g]
+                if len(hit) != 1 or hit[0] != lab(w):
+                    good = False
+                    break
+            report.append((hex(top), len(leaves), good))
+            ok = ok and good
+    print("lazyword selftest: sub-cubes (top halfword, leaves, agrees-with-brute-force): %r" % (report,))
     return ok
